@@ -650,7 +650,8 @@ class C17(Prop):
                         raw = bytes([b0]) + rbytes(rng, ln - 1)
                         for ex in {ln, rng.choice([0, 1, 2, 3, ln - 1, ln + 1, ln + 5])}:
                             bad_rules = ft is not None and ((ft == 0) != (rules in FP_RULES))
-                            short = should_fhp(rules, bool(tr), ft) and ln < 3
+                            # a data field with a pointer needs three octets both in the buffer and in its declared length
+                            short = should_fhp(rules, bool(tr), ft) and (ln < 3 or max(ex, 0) < 3)
                             a = {"raw": hx(raw), "truncated": tr, "exact_len": max(ex, 0), "frame_type": ft}
                             if bad_rules or short:
                                 yield Case({"op": "uslp_tfdf_unpack", **a}, "invalid", tag="octet0-sweep")
